@@ -517,7 +517,9 @@ func runC02(c *ctx, f *c02File, ops []c02Op, rd int, slow bool, procs int) []str
 		r.hist("skipped-after-" + fmt.Sprint(c02MaxHangs) + "-hangs." + hm)
 		return nil
 	}
-	in := func() c02Input { return c02Input{File: c02File{Blocks: f.Blocks}, Ops: ops, Rd: rd, Slow: slow, Procs: procs} }
+	in := func() c02Input {
+		return c02Input{File: c02File{Blocks: f.Blocks}, Ops: ops, Rd: rd, Slow: slow, Procs: procs}
+	}
 	mode := fmt.Sprintf("rd%d", rd)
 	if rd > 1 || rd == 0 {
 		mode = "rdN"
